@@ -129,8 +129,10 @@ def listed (s : State) : List Name :=
 
 /-! ### upload files -/
 
+/-- `CreateUploadFile(u, 0)`: the op is built without `AcceptState`, so for an existing file the state
+check fails with a `FileStateError` (not `os.ErrExist`) -/
 def createUpload (s : State) (u : String) : State × Res :=
-  if KV.has s.uploads u then (s, .exist) else ({ s with uploads := KV.put s.uploads u [] }, .ok)
+  if KV.has s.uploads u then (s, .other) else ({ s with uploads := KV.put s.uploads u [] }, .ok)
 
 def writeUpload (s : State) (u : String) (off : Nat) (bytes : Bytes) : State × Res :=
   match KV.get s.uploads u with
@@ -162,6 +164,11 @@ def genMetaFromFile (s : State) (name : Name) (pl : Int) : State × Res :=
   | none => (s, .notExist)
   | some b => if pl ≤ 0 then (s, .badMeta) else setTM s name (miOf crc name b pl)
 
+/-- the rename into the cache directory: nothing happens when a file of that name exists (`os.ErrExist`,
+swallowed by `writeCacheFile`) -/
+def ensureFile (s : State) (name : Name) (b : Bytes) : State :=
+  if KV.has s.cache name then s else { s with cache := KV.put s.cache name { data := b } }
+
 /-- `writeCacheFile(name, write, addMetadata, pieceLength)`; the temporary upload file has a fresh
 uuid name and is always removed again, so it is not represented -/
 def writeCacheFile (s : State) (name : Name) (att : Option Attempt) (addMeta : Bool) (pl : Int) : State × Res :=
@@ -170,9 +177,12 @@ def writeCacheFile (s : State) (name : Name) (att : Option Attempt) (addMeta : B
   | some a =>
     if a.fail then (s, .write)
     else if !verifyOK H s.cfg name a.data then (s, .verify)
-    else
-      let s1 := if KV.has s.cache name then s else { s with cache := KV.put s.cache name { data := a.data } }
-      if addMeta then genMetaFromFile crc s1 name pl else (s1, .ok)
+    else if addMeta then genMetaFromFile crc (ensureFile s name a.data) name pl
+    else (ensureFile s name a.data, .ok)
+
+/-- the `MemoryEntry` built by `addToMemoryCache` -/
+def newEntry (s : State) (name : Name) (b : Bytes) (pl : Int) : Entry :=
+  { data := b, mi := miOf crc name b pl, createdAt := s.now }
 
 /-- `addToMemoryCache` after a successful reservation; `none` = it returned an error -/
 def addToMem (s : State) (name : Name) (att : Option Attempt) (size : Nat) (pl : Int) : Option State :=
@@ -182,22 +192,19 @@ def addToMem (s : State) (name : Name) (att : Option Attempt) (size : Nat) (pl :
     if a.fail then none
     else if !verifyOK H s.cfg name a.data then none       -- digest check before the entry becomes readable
     else if !validName name || pl ≤ 0 then none            -- generateMetadataFromBytes
-    else
-      let mi := miOf crc name a.data pl
-      let (m, added) := MemCache.add s.mem name { data := a.data, mi := mi, createdAt := s.now }
-      if !added then none
-      else some { s with mem := m, queue := s.queue ++ [{ name := name, data := a.data, mi := mi, retries := 0 }] }
+    else if !(MemCache.add s.mem name (newEntry crc s name a.data pl)).2 then none   -- duplicate
+    else some { s with mem := (MemCache.add s.mem name (newEntry crc s name a.data pl)).1,
+                       queue := s.queue ++ [{ name := name, data := a.data, mi := miOf crc name a.data pl, retries := 0 }] }
+
+def reserved (s : State) (size : Nat) : State := { s with mem := (MemCache.tryReserve s.mem size).1 }
+def released (s : State) (size : Nat) : State := { s with mem := MemCache.release s.mem size }
 
 /-- `WriteBlobToCacheWithMetaInfo(name, size, write, pieceLength)` -/
 def writeBlob (s : State) (name : Name) (size : Nat) (atts : List Attempt) (pl : Int) : State × Res :=
-  if s.cfg.memEnabled then
-    let (m, reserved) := MemCache.tryReserve s.mem size
-    if reserved then
-      let s1 := { s with mem := m }
-      match addToMem H crc s1 name atts.head? size pl with
-      | some s2 => (s2, .ok)
-      | none => writeCacheFile H crc { s1 with mem := MemCache.release s1.mem size } name (atts.drop 1).head? true pl
-    else writeCacheFile H crc s name atts.head? true pl
+  if s.cfg.memEnabled && (MemCache.tryReserve s.mem size).2 then
+    match addToMem H crc (reserved s size) name atts.head? size pl with
+    | some s2 => (s2, .ok)
+    | none => writeCacheFile H crc (released (reserved s size) size) name (atts.drop 1).head? true pl
   else writeCacheFile H crc s name atts.head? true pl
 
 /-- `CreateCacheFile(name, r)` -/
@@ -206,19 +213,23 @@ def createCache (s : State) (name : Name) (b : Bytes) : State × Res :=
 
 /-- `writeDrainItemToDisk` -/
 def writeDrainItem (s : State) (it : DrainItem) : State × Res :=
-  let (s1, r) := writeCacheFile H crc s it.name (some { data := it.data }) false 0
-  if r = .ok then setTM s1 it.name it.mi else (s1, r)
+  if (writeCacheFile H crc s it.name (some { data := it.data }) false 0).2 = .ok
+  then setTM (writeCacheFile H crc s it.name (some { data := it.data }) false 0).1 it.name it.mi
+  else writeCacheFile H crc s it.name (some { data := it.data }) false 0
+
+def dropFromMem (s : State) (name : Name) : State := { s with mem := MemCache.remove s.mem name }
 
 /-- `drainNext` -/
 def drainNext (s : State) : State :=
   match s.queue with
   | [] => s
   | it :: rest =>
-    let (s1, r) := writeDrainItem H crc { s with queue := rest } it
-    if r = .ok then { s1 with mem := MemCache.remove s1.mem it.name }
+    if (writeDrainItem H crc { s with queue := rest } it).2 = .ok then
+      dropFromMem (writeDrainItem H crc { s with queue := rest } it).1 it.name
     else if it.retries < s.cfg.drainMaxRetries then
-      { s1 with queue := s1.queue ++ [{ it with retries := it.retries + 1 }] }
-    else { s1 with mem := MemCache.remove s1.mem it.name }
+      { (writeDrainItem H crc { s with queue := rest } it).1 with
+        queue := (writeDrainItem H crc { s with queue := rest } it).1.queue ++ [{ it with retries := it.retries + 1 }] }
+    else dropFromMem (writeDrainItem H crc { s with queue := rest } it).1 it.name
 
 /-- `cleanupMemoryCacheExpiredEntries` -/
 def ttlSweep (s : State) : State :=
